@@ -145,7 +145,7 @@ def gen_source(rng, hazardous=True) -> Src:
         s.lines.append(hdr)
         s.block_comments.append((0, 0, hdr))
     for name in rng.sample(["inc1", "sub/inc2", "inc 3", "sub\\win", "../up", "missing", "sub/deep/inc4"], rng.randrange(0, 3)):
-        quoted = rng.choice(["'", '"', ""]) if " " not in name and "\\" not in name else rng.choice(["'", '"'])
+        quoted = rng.choice(["'", '"', ""]) if " " not in name else rng.choice(["'", '"'])      # sub\\win also without quotes
         s.lines.append("#include " + quoted + name + quoted)
         s.includes.append(name)
         if "/" in name or "\\" in name:
